@@ -74,6 +74,39 @@ def run(ctx):
             ctx.ob("C18.tail-handoff", zeroed, "after the hand-over `remaining` is not reset to 0: the same bytes would also be parsed as plaintext packets", fn=sw.path,
                    construct="remaining-zero", where=sw.where(p.blocks[-1]))
         ctx.floor("C18.tail-handoff", "paths of the hand-over function", n, 1)
+    # the bytes handed over are opaque: whatever was read behind the SSL request — nothing, one byte of a record header, a whole
+    # ClientHello — is replayed as it is.  A decision of the hand-over functions that depends on those bytes (their content, or
+    # how many there are) treats some chunkings of the same stream differently.
+    for hb, pidx in ((sw, None), (isw, 3)):
+        nbr = 0
+        for bb in range(hb.n):
+            t = hb.term(bb)
+            if t["k"] != "switch" or hb.is_cleanup(bb):
+                continue
+            v = hb.origin_op(t["discr"], bb, len(hb.blocks[bb]["stmts"]))
+            def _on_tail(x):
+                if pidx is not None:
+                    return isinstance(x, tuple) and len(x) > 1 and x[0] == "param" and x[1] == pidx
+                # in PacketConn::switch_to_tls the tail is a slice of self.bytes
+                return isinstance(x, tuple) and len(x) > 2 and x[0] == "call" and isinstance(x[1], str) and re.search(r"Index<.*>>::index$|Index::index$", x[1]) is not None and \
+                    isinstance(x[2], tuple) and len(x[2]) > 0 and T.is_field(T.peel(x[2][0]), "bytes")
+            def _looks_at_tail(x, depth=0):
+                # the tail passed on to a function of the crate (the reader's constructor, the stream factory) is a hand-over, not
+                # a look at it: only std operations on the tail itself count (is_empty, len, indexing, pattern tests)
+                if depth > 80 or not isinstance(x, tuple) or not x:
+                    return False
+                if isinstance(x[0], str):
+                    if _on_tail(x):
+                        return True
+                    if x[0] == "call" and len(x) > 1 and isinstance(x[1], str) and x[1] in prog.bodies:
+                        return False
+                return any(_looks_at_tail(y, depth + 1) for y in x if isinstance(y, tuple))
+            if _looks_at_tail(v):
+                nbr += 1
+                ctx.ob("C18.tail-handoff", False, "%s branches on the bytes received behind the SSL request (%s): the upgrade then depends on how the transport chunked the stream"
+                       % (hb.path, term_str(v)[:100]), fn=hb.path, construct="branch-on-tail", where=hb.where(bb))
+        ctx.ob("C18.tail-handoff", True, "", fn=hb.path, construct="tail-opaque", nontrivial=False) if nbr == 0 else None
+
     # PrependedReader::new: Cursor(prepended.to_vec()).chain(rw)
     pn = prog.one(r"^tls::PrependedReader::<RW>::new$")
     ctx.fn(pn)
@@ -111,6 +144,31 @@ def run(ctx):
                 ok = isinstance(recv, tuple) and recv[0] == "field" and isinstance(recv[1], tuple) and recv[1][0] == "variant" and recv[1][2] in ("Plain", "Tls")
                 if not ok:
                     inner_calls = ["%s on %s" % (inner_calls[0][-40:], term_str(recv)[-80:])]
+                else:
+                    # ... and what the wrapper answers is what the inner object answered: a count replaced by buf.len() ("rustls
+                    # queues everything") or an Ok(0) swallowed turns a short write / end of stream into lost bytes
+                    rv = p.return_value()
+                    icn = cname(inner[0][1]["func"])
+
+                    def _is_inner(x):
+                        x = T.peel(x, payloads=False) if isinstance(x, tuple) else x
+                        return isinstance(x, tuple) and x[0] == "call" and x[1] == icn
+
+                    def _same_result(r):
+                        # the call itself, or its result taken apart and put together again unchanged (`let n = inner?; Ok(n)`)
+                        if _is_inner(r):
+                            return True
+                        if isinstance(r, tuple) and r[0] == "agg" and r[1] == "adt" and (r[2] or "").endswith("result::Result") and len(r[4]) == 1:
+                            pl = r[4][0]
+                            want = "okpayload" if r[3] == "Ok" else "errpayload"
+                            return isinstance(pl, tuple) and pl[0] == want and _is_inner(pl[1])
+                        if T.is_call(r, r"from_residual$") and len(r[2]) == 1:
+                            a = r[2][0]
+                            return isinstance(a, tuple) and a[0] == "errresidual" and _is_inner(a[1])
+                        return False
+                    ok = _same_result(rv)
+                    if not ok:
+                        inner_calls = ["%s, but returns %s" % (inner_calls[0][-40:], term_str(rv)[:80])]
             ctx.ob("C18.variant-delegation", ok, "SwitchableConn::%s forwards to %s on one variant (need %s::%s)" % (meth, inner_calls, tr, meth), fn=b.path, construct="arm",
                    where=b.where(p.blocks[-1]), sample={"rule": "variant-delegation", "method": meth, "inner": inner_calls} if n <= 2 else None)
     ctx.floor("C18.variant-delegation", "SwitchableConn delegation arms", n, 6)
@@ -154,6 +212,35 @@ def run(ctx):
             ctx.ob("C18.variant-delegation", ok, "%s overrides %s::%s with something other than a plain forward of the same call (forwarding calls %d, other io calls %s, loops %d)"
                    % (imp["self_ty"], tp, meth, len(same), other_io[:3], len(b.loops())), fn=b.path, construct="extra-method", callee=meth, where=b.where(0))
     ctx.note("transport wrappers override %d Read/Write methods beyond read/write/flush" % n_extra)
+    # a *new* local type that implements Read / Write (a buffering or coalescing layer slipped between the packet layer and the
+    # transport) is held to the same standard: every method a plain forward of the same call, its result returned unchanged
+    for imp in prog.impls:
+        tp = imp.get("trait_path") or ""
+        st = imp.get("self_ty") or ""
+        if tp not in ("std::io::Read", "std::io::Write") or re.match(r"tls::(SwitchableConn|PrependedReader)<|packet::PacketConn<", st):
+            continue
+        ms = [m for m in imp["methods"] if m in prog.bodies and "::tests::" not in m]
+        if not ms or not any(prog.bodies[m].raw.get("local", True) for m in ms):
+            continue
+        for m in ms:
+            meth = m.rsplit("::", 1)[-1]
+            b = prog.bodies[m]
+            ctx.fn(b)
+            bad = None
+            if b.loops():
+                bad = "contains a loop"
+            for q in enumerate_paths(b):
+                if q.end != "return" or bad:
+                    continue
+                same = [(pos, t) for pos, blk, t in q.calls() if t["func"]["path"] == "%s::%s" % (tp, meth)]
+                others = [cname(t["func"]) for pos, blk, t in q.calls() if re.match(r"std::io::(Read|Write)::", t["func"]["path"]) and t["func"]["path"] != "%s::%s" % (tp, meth)]
+                rv = q.return_value()
+                icn = cname(same[0][1]["func"]) if same else None
+                direct = isinstance(rv, tuple) and rv[0] == "call" and rv[1] == icn
+                if len(same) != 1 or others or not direct:
+                    bad = "a path makes %d forwarding calls, other io calls %s, returns %s" % (len(same), others[:2], term_str(rv)[:60])
+            ctx.ob("C18.variant-delegation", bad is None, "%s implements %s::%s as something other than a plain forward (%s): bytes can be held back, reordered or dropped between the packet layer and the transport"
+                   % (st, tp, meth, bad), fn=b.path, construct="local-io-impl", callee=meth, where=b.where(0))
 
     # ---- ownership -----------------------------------------------------------------------------------------
     callers = [(b, bb) for b, bb, t in prog.callers_of("^" + re.escape(sw.path) + "$") if "::tests::" not in b.path]
